@@ -156,6 +156,36 @@ def run(M, rep, tier, only=None):
     R8 = rep.rule("C03.R8", "every legal name (non-empty, no slash) passes the name check; empty names and names with a slash do not", floor=10,
                   technique="decision-table extraction of the name validation, evaluated on representative names")
     name_table(M, rep, R8)
+    R9 = rep.rule("C03.R9", "lookup by id returns only a child whose stored entity_id was compared equal to the id asked for", floor=1,
+                  technique="guard of every returning path of the layer's id lookup (raw mode)")
+    hg9 = M.classes.get("H5Group")
+    g9 = hg9.methods.get("get_by_id") if hg9 else None
+    if g9 is None:
+        rep.bad(R9, "H5Group.get_by_id", "required mechanism not found")
+    else:
+        rc9 = Config(M, mode="raw")
+        rc9.compose = False
+        bad9 = None
+        n9 = 0
+        pn = g9.node.args.args[1].arg
+        for p in explore(rc9, g9, "H5Group", None, 4000):
+            if not p.normal:
+                continue
+            n9 += 1
+            ok9 = False
+            for a, v in p.decisions:
+                if v is True and a[0] in ("eq", "cmp") and any(x == ("param", pn) for x in subterms(a)) and \
+                        any(x and ((x[0] == "rd" and x[3] == ("const", "entity_id")) or (x[0] in ("lres", "mcall") and
+                                                                                         any(y == ("const", "entity_id") for y in subterms(x))))
+                            for x in subterms(a)):
+                    ok9 = True
+                if v is True and a == ("isnone", ("param", pn)):
+                    ok9 = True      # the comparison of a missing stored id (None) with an id of None
+            if not ok9:
+                bad9 = p
+        rep.check(R9, "H5Group.get_by_id", bad9 is None and n9 > 0, "a path of the id lookup returns an object without having compared its "
+                  "stored entity_id with the id asked for: an entity *named* like another entity's id is returned in its place",
+                  site=g9.file + ":%d" % g9.node.lineno, detail=describe_path(bad9) if bad9 else None)
     R7 = rep.rule("C03.R7", "membership of an entity agrees with lookup by id (decided by the entity's id, not by its name alone)", floor=1,
                   technique="dependency of every True-answering path on the item's id (shared with C05.R2)")
     from .c05 import container_identity
